@@ -7,7 +7,7 @@ use crate::gen::*;
 pub fn random_op(c: &mut Ctx, cur: &str, cfg: &GenCfg) -> String {
     let e = match c.env(cur) { Some(e) => e, None => return cur.to_string() };
     let nas = e.assertions().len();
-    match c.rng.below(26) {
+    match c.rng.below(33) {
         0 | 1 | 2 => { let a = gen_assertion(c, cfg, 1); c.assign(&format!("add {} {}", cur, a)) }
         3 => {
             // add a duplicate of an assertion already there
@@ -46,6 +46,53 @@ pub fn random_op(c: &mut Ctx, cur: &str, cfg: &GenCfg) -> String {
         22 => c.assign(&format!("subject {}", cur)),
         23 => c.assign(&format!("elide {}", cur)),
         24 => { match gen_position(c, cur) { Some((r, _)) => r, None => cur.to_string() } }
-        _ => { let n = hex::encode(c.rng.bytes(12)); c.assign(&format!("encrypt {} {} {}", cur, KEY1, n)) }
+        25 => { let n = hex::encode(c.rng.bytes(12)); c.assign(&format!("encrypt {} {} {}", cur, KEY1, n)) }
+        26 => {
+            // add an obscured form (elided / compressed / encrypted) of an assertion that is already present
+            if nas > 0 { let i = c.rng.below(nas); let a = c.assign(&format!("at {} a{}", cur, i));
+                let o = match c.rng.below(3) { 0 => c.assign(&format!("elide {}", a)), 1 => c.assign(&format!("compress {}", a)), _ => { let n = hex::encode(c.rng.bytes(12)); c.assign(&format!("encrypt_subject {} {} {}", a, KEY1, n)) } };
+                c.count("hist:add-obscured-copy"); if c.is_ok(&o) { c.assign(&format!("add {} {}", cur, o)) } else { cur.to_string() } }
+            else { cur.to_string() }
+        }
+        27 => {
+            // an assertion element whose digest equals the subject's: the elided subject, or the subject itself when it is an assertion
+            let s = c.assign(&format!("subject {}", cur));
+            let x = if c.env(&s).map(|x| x.is_subject_assertion()).unwrap_or(false) && c.rng.chance(1, 2) { s } else { c.assign(&format!("elide {}", s)) };
+            c.count("hist:add-subject-digest-element"); c.assign(&format!("add {} {}", cur, x))
+        }
+        28 => {
+            // bulk add with a repetition that is not adjacent: [a, b, a]
+            let a = gen_assertion(c, cfg, 1); let b = gen_assertion(c, cfg, 1);
+            let list = match c.rng.below(3) { 0 => format!("{},{},{}", a, b, a), 1 => format!("{},{},{}", a, a, b), _ => { let d = gen_assertion(c, cfg, 0); format!("{},{},{},{}", a, b, d, a) } };
+            c.count("hist:add-many-with-repeat"); c.assign(&format!("add_many {} {}", cur, list))
+        }
+        29 => {
+            // replace an assertion by one the node already holds (possibly in obscured form)
+            if nas >= 2 { let i = c.rng.below(nas); let mut j = c.rng.below(nas); if j == i { j = (j + 1) % nas; }
+                let a = c.assign(&format!("at {} a{}", cur, i)); let mut b = c.assign(&format!("at {} a{}", cur, j));
+                if c.rng.chance(1, 3) { b = c.assign(&format!("elide {}", b)); }
+                c.count("hist:replace-by-present"); c.assign(&format!("replace_assertion {} {} {}", cur, a, b)) }
+            else { cur.to_string() }
+        }
+        30 => {
+            // replace the subject by a node that carries several assertions of its own
+            let mut s = gen_leaf(c, cfg);
+            for _ in 0..c.rng.range(2, 4) { let a = gen_assertion(c, cfg, 0); s = c.assign(&format!("add {} {}", s, a)); }
+            c.count("hist:replace-subject-by-wide-node"); c.assign(&format!("replace_subject {} {}", cur, s))
+        }
+        31 => {
+            // a key holder mis-declares content: encrypted element with this subject's digest but other content
+            let subj = c.assign(&format!("subject {}", cur)); let other = gen_env(c, cfg, 1); let n = hex::encode(c.rng.bytes(12));
+            let md = c.assign(&format!("misdeclare {} {} {} {}", subj, other, KEY1, n));
+            let r = c.assign(&format!("replace_subject {} {}", cur, md));
+            c.count("hist:misdeclared-subject"); c.assign(&format!("decrypt_subject {} {}", r, KEY1))
+        }
+        _ => {
+            // the same for compression
+            let subj = c.assign(&format!("subject {}", cur)); let other = gen_env(c, cfg, 1);
+            let mc = c.assign(&format!("miscompress {} {}", subj, other));
+            let r = c.assign(&format!("replace_subject {} {}", cur, mc));
+            c.count("hist:miscompressed-subject"); c.assign(&format!("uncompress_subject {} ", r).trim_end())
+        }
     }
 }
